@@ -216,8 +216,22 @@ mod std_build {
                         cx.nt("coherent_at_nonzero_offset");
                     }
                 }
-                // dropping the region releases exactly its mapping
+                // the same attributes through the guest-region interface
                 let (addr, _) = (region.as_ptr() as usize, ());
+                let gbase = 0x1000u64 * (1 + t.below(4));
+                let region = vm_memory::GuestRegionMmap::new(region, vm_memory::GuestAddress(gbase)).map_err(|e| format!("GuestRegionMmap::new: {:?}", e))?;
+                {
+                    use vm_memory::GuestMemoryRegion;
+                    ensure!(GuestMemoryRegion::len(&region) == size as u64 && region.start_addr().0 == gbase && region.last_addr().0 == gbase + size as u64 - 1, "guest region len/start/last = {:#x}/{:#x}/{:#x} for size {:#x} at {:#x}", GuestMemoryRegion::len(&region), region.start_addr().0, region.last_addr().0, size, gbase);
+                    match (GuestMemoryRegion::file_offset(&region), &fo) {
+                        (None, None) => {}
+                        (Some(a), Some(b)) => ensure!(a.start() == b.start() && std::sync::Arc::ptr_eq(a.arc(), b.arc()), "GuestMemoryRegion::file_offset() reports start {:#x}, asked {:#x}", a.start(), b.start()),
+                        (a, b) => return Err(format!("GuestMemoryRegion::file_offset() is {:?}, the region was created with {:?} (flags {:#x})", a.map(|x| x.start()), b.as_ref().map(|x| x.start()), eff_flags)),
+                    }
+                    ensure!(GuestMemoryRegion::is_hugetlbfs(&region) == hint, "GuestMemoryRegion::is_hugetlbfs() = {:?}, the builder was told {:?}", GuestMemoryRegion::is_hugetlbfs(&region), hint);
+                    ensure!(region.get_host_address(vm_memory::MemoryRegionAddress(size as u64 - 1)).map(|p| p as usize).ok() == Some(addr + size - 1), "get_host_address(last) is not the last byte of the mapping");
+                }
+                // dropping the region releases exactly its mapping
                 drop(region);
                 let log_drop = interpose::end();
                 let un: Vec<&Ev> = log_drop.iter().filter(|e| matches!(e, Ev::Munmap { .. })).collect();
@@ -243,6 +257,32 @@ mod std_build {
         let size = 1 + t.idx(pages * PS - mis);
         let prot = libc::PROT_READ | libc::PROT_WRITE;
         let flags = libc::MAP_PRIVATE | libc::MAP_ANONYMOUS | if t.flag() { libc::MAP_FIXED } else { 0 };
+        if t.chance(1, 6) {
+            // the null pointer is page-aligned: a region around it is what was asked for (it is
+            // never accessed here)
+            note!(cx, "build_raw(null, size {:#x}, flags {:#x}) {}", size, flags, if t.flag() { "via the builder" } else { "" });
+            cx.nt("raw_null_pointer");
+            interpose::begin();
+            // SAFETY: the region is only inspected, never accessed.
+            let r = if t.flag() {
+                unsafe { MmapRegionBuilder::<()>::new(size).with_raw_mmap_pointer(std::ptr::null_mut()).with_mmap_prot(prot).with_mmap_flags(flags).build() }
+            } else {
+                unsafe { MmapRegion::<()>::build_raw(std::ptr::null_mut(), size, prot, flags) }
+            };
+            let res = match r {
+                Ok(region) => {
+                    ensure!(region.as_ptr().is_null() && !region.owned() && region.size() == size && region.prot() == prot && region.flags() == flags, "a region requested around the null pointer reports ptr {:p}, owned {}, size {:#x}, prot {:#x}, flags {:#x}", region.as_ptr(), region.owned(), region.size(), region.prot(), region.flags());
+                    drop(region);
+                    Ok(())
+                }
+                Err(e) => Err(format!("a page-aligned (null) external pointer was refused: {:?}", e)),
+            };
+            let log = interpose::end();
+            ensure!(log.is_empty(), "a region around an externally provided (null) pointer issued mapping calls: {:x?}", log);
+            // SAFETY: releasing the harness mapping.
+            unsafe { libc::syscall(libc::SYS_munmap, base, pages * PS) };
+            return res;
+        }
         note!(cx, "build_raw(ptr page+{}, size {:#x}, flags {:#x})", mis, size, flags);
         cx.nt(if mis == 0 { "raw_aligned" } else { "raw_misaligned" });
         interpose::begin();
